@@ -40,6 +40,8 @@ OPTION_EDITS = {
     'namespace1': ('python-gapic-namespace=zeta', ('naming', None, ('zeta',))),
     'namespace-dotted': ('python-gapic-namespace=zeta.eta', ('naming', None, ('zeta', 'eta'))),
     'namespace-repeated': ('python-gapic-namespace=zeta,python-gapic-namespace=eta', ('naming', None, ('zeta', 'eta'))),
+    'name-two-words': ('python-gapic-name=big_gadgets', ('naming', 'big_gadgets', None)),
+    'name-two-words+namespace': ('python-gapic-namespace=zeta.eta,python-gapic-name=big_gadget_works', ('naming', 'big_gadget_works', ('zeta', 'eta'))),
     'name+namespace': ('python-gapic-name=gadgets,python-gapic-namespace=zeta', ('naming', 'gadgets', ('zeta',))),
     'unknown-bare': ('frobnicate', 'same'), 'unknown-kv': ('frob=nicate', 'same'),
     'unknown-other-plugin': ('go-gapic-package=x/y;z', 'same'), 'unknown-python-gapic': ('python-gapic-frob=1', 'same'),
@@ -63,6 +65,7 @@ def build(ns_depth, version, layout, deps, fname_kind, parameter=''):
     stems = FNAMES[fname_kind]
     files, dep_files = [], []
     targets = []   # (file name, proto package, services)
+    paged = set()
     main_msgs = [message('Widget', [field('name', 1, 'string'), field('size', 2, 'int32')]),
                  message('GetWidgetRequest', [field('name', 1, 'string')])]
     imports = []
@@ -108,9 +111,15 @@ def build(ns_depth, version, layout, deps, fname_kind, parameter=''):
         targets.append((second.name, pkg, []))
     if layout in ('two', 'two+sub'):
         f2 = file(f'{pdir}/gadgets.proto', pkg,
-                  messages=[message('Gadget', [field('name', 1, 'string')]), message('GetGadgetRequest', [field('name', 1, 'string')])],
+                  messages=[message('Gadget', [field('name', 1, 'string')]), message('GetGadgetRequest', [field('name', 1, 'string')]),
+                            message('ListGadgetsRequest', [field('parent', 1, 'string'), field('page_size', 2, 'int32'), field('page_token', 3, 'string')]),
+                            message('ListGadgetsResponse', [field('gadgets', 1, Q('Gadget'), repeated=True), field('next_page_token', 2, 'string')])],
                   services=[service('GadgetService', [method('GetGadget', Q('GetGadgetRequest'), Q('Gadget'),
-                                                             http=('get', '/v1/{name=gadgets/*}'))], host='widgets.example.com')])
+                                                             http=('get', '/v1/{name=gadgets/*}')),
+                                                      # the only paginated method of the API: this service alone has a pagers module
+                                                      method('ListGadgets', Q('ListGadgetsRequest'), Q('ListGadgetsResponse'),
+                                                             http=('get', '/v1/{parent=boxes/*}/gadgets'))], host='widgets.example.com')])
+        paged.add('GadgetService')
         files.append(f2)
         targets.append((f2.name, pkg, ['GadgetService']))
     svc_only = None
@@ -134,7 +143,7 @@ def build(ns_depth, version, layout, deps, fname_kind, parameter=''):
         svc_only.dependency.append(main.name)
     req = request(files, parameter, extra_dep_files=dep_files)
     desc.gate(req)
-    return req, dict(package=pkg, ns=ns, version=version, targets=targets,
+    return req, dict(package=pkg, ns=ns, version=version, targets=targets, paged=sorted(paged),
                      dep_names=[d.name for d in dep_files], dep_services=['Things'] if deps == 'foreign' else [])
 
 
@@ -220,6 +229,13 @@ def judge_names(res, info, naming=None):
         exp = {names.snake(s) for s in svcs}
         if sdirs != exp:
             out.append(('service-packages', f'{sorted(sdirs)} under {base}/services, expected {sorted(exp)}'))
+        # the pagers module is one of the modules that render empty (and are therefore not emitted) unless the service has a
+        # paginated method
+        for s_ in svcs:
+            pg = f'{base}/services/{names.snake(s_)}/pagers.py'
+            if (pg in names_) != (s_ in info.get('paged', ())):
+                out.append(('pagers-module', f'{pg} {"emitted" if pg in names_ else "missing"} although the service has '
+                                             f'{"a" if s_ in info.get("paged", ()) else "no"} paginated method'))
     # nothing for dependency-only files
     for dn in info['dep_names']:
         stem = posixpath.basename(dn)[:-len('.proto')]
